@@ -982,6 +982,9 @@ class FnLower:
         if k == "bool": return ("v", Val("True" if e[1] else "False", "bool"))
         if k == "path":
             if len(e[1]) != 1:
+                if len(e[1]) >= 2 and e[1][-2] in self.tr.enums and e[1][-1] in self.tr.enums[e[1][-2]]["ctors"]:      # phase 4d: `Enum::Variant` as a value
+                    en = self.tr.enums[e[1][-2]]
+                    return ("v", Val(f"{en['lean']}{en['ctors'][e[1][-1]]}", ("enum", e[1][-2])))
                 if e[1][-1] in self.consts: return ("v", Val(str(self.consts[e[1][-1]][0]), self.consts[e[1][-1]][1]))
                 self.fail(f"path {'::'.join(e[1])}")
             if e[1][0] not in env and e[1][0] in self.consts: return ("v", Val(str(self.consts[e[1][0]][0]), self.consts[e[1][0]][1]))
@@ -1188,6 +1191,12 @@ class FnLower:
             if a.ty == "int" and b.ty == "int": self.fail(f"{m} on untyped literals")
             f = {"wrapping_add": "wAdd", "wrapping_sub": "wSub", "wrapping_mul": "wMul"}[m]
             return ("v", Val(f"({f} {a.atom} {b.atom})", a.ty if a.ty != "int" else b.ty, a.deps | b.deps))
+        if m == "cmp" and len(args) == 1:                  # phase 4d: `a.cmp(&b)` on words
+            b0 = strip_paren(args[0])
+            if b0[0] == "ref" and not b0[1]: b0 = b0[2]
+            a, b = self.seq([lambda: self.ex(recv, env, ops), lambda: self.ex(b0, env, ops)], ops)
+            if a.ty not in ("u64", "usize") or b.ty not in ("u64", "usize"): self.fail(f"cmp on {a.ty}, {b.ty}")
+            return ("v", Val(f"(cmpW {a.atom} {b.atom})", ("enum", "Ordering"), a.deps | b.deps))
         if m == "reverse_bits" and not args:
             a = self.ex(recv, env, ops)
             if a.ty not in ("u32", "u64"): self.fail("reverse_bits on " + str(a.ty))
@@ -1396,6 +1405,10 @@ class FnLower:
             ops.append(("let", f"({la}, {lb})", f"({lb}, {la})"))
             return ("v", Val("()", "unit"))
         if len(path) == 1 and path[0] in env and env[path[0]].kind == "closure": return self.closure_call(env[path[0]], args, env, ops)
+        if path[-2:] in (["cmp", "max"], ["cmp", "min"]) and len(args) == 2:          # phase 4d: `std::cmp::max/min` on words
+            a, b = self.seq([lambda: self.ex(args[0], env, ops), lambda: self.ex(args[1], env, ops)], ops)
+            if a.ty not in WORD or b.ty not in WORD: self.fail(f"std::cmp::{fname} on {a.ty}, {b.ty}")
+            return ("v", Val(f"({fname} {a.atom} {b.atom})", a.ty if a.ty != "int" else b.ty, a.deps | b.deps))
         exn = self.extern_of(e, env)
         if exn is not None: return self.extern_call(exn, env, ops)
         sig = None
@@ -1876,6 +1889,8 @@ class FnLower2(FnLower):
             if isinstance(y, str):
                 if y in env and y not in d: res.add(y)
             elif y[1] in env and env[y[1]].kind in ("out", "outarr") and y[1] not in d: res.add(y[1])
+            # phase 4d (soundness fix): a `&mut [u64]` parameter passed BARE to a call is re-borrowed mutably - the callee may write it
+            elif y[1] in env and env[y[1]].kind == "list" and getattr(env[y[1]], "mut", False) and y[1] not in d: res.add(y[1])
         return res
 
     def if_stmt(self, e, stmts, i, tail, env, ops, k, nested):
@@ -2395,6 +2410,7 @@ class FnTranslate(FnLower2):
         elif rt[0] == "name" and rt[1] in ("u64", "usize", "u8", "bool", "u32"): ret = rt[1]
         elif rt[0] == "name" and rt[1] in ("i64", "isize"): ret = "i64"
         elif rt[0] == "name" and rt[1] in self.tr.structs: ret = ("struct", rt[1])
+        elif rt[0] == "name" and rt[1] in self.tr.enums: ret = ("enum", rt[1])          # phase 4d
         elif rt == ("vec", ("name", "usize")) or rt == ("vec", ("name", "u64")): ret = "list"
         elif rt[0] == "tuple" and all(t[0] == "name" and t[1] in ("u64", "usize", "i64") for t in rt[1]): ret = ("tuple", [t[1] for t in rt[1]])
         else: self.fail(f"return type {rt}")
@@ -2404,6 +2420,7 @@ class FnTranslate(FnLower2):
         for pn in self.outs: tys += [self.tr.structs[env[pn].ty]["lean"]] if env[pn].kind == "struct" else ["List Nat"] if env[pn].kind == "list" else ["Nat"] * len(env[pn].names())
         if is_tup(ret): tys += ["Int" if t == "i64" else "Nat" for t in ret[1]]
         elif isinstance(ret, tuple) and ret[0] == "struct": tys.append(self.tr.structs[ret[1]]["lean"])
+        elif isinstance(ret, tuple) and ret[0] == "enum": tys.append(self.tr.enums[ret[1]]["lean"])
         elif ret == "list": tys.append("List Nat")
         elif ret != "unit": tys.append("Bool" if ret == "bool" else "Int" if ret == "i64" else "Nat")
         if not tys: self.fail("function without result")
@@ -2516,7 +2533,7 @@ class FnTranslate(FnLower2):
                 parts += v.names()
             if self.ret != "unit":
                 if val is None: self.fail("missing return value")
-                if isinstance(self.ret, tuple) and self.ret[0] == "struct" or self.ret in ("list", "i64"):
+                if isinstance(self.ret, tuple) and self.ret[0] in ("struct", "enum") or self.ret in ("list", "i64"):
                     if val.ty != self.ret and not (self.ret == "i64" and val.ty == "int"): self.fail(f"function returning {self.ret} returns {val.ty}")
                     parts.append(val.atom)
                 elif is_tup(self.ret):
@@ -2660,16 +2677,16 @@ class FnTranslate(FnLower2):
                 else: out.append(chead); out += self.seq_p(a["code"], 2)
                 out.append(""); continue
             out.append(f"/-- loop at line {a['line']} of `{fn['name']}` ({fn['file']}); fuel {a['fuel']} at the call site -/")
-            out.append(f"def {a['name']} {' '.join(a['binders'])} : Nat → {' → '.join(a['car_types'])} → {a.get('rty', rty)}".replace("  ", " "))
-            pats = ", ".join(a["car_names"])
+            out.append(f"def {a['name']} {' '.join(a['binders'])} : {' → '.join(['Nat'] + list(a['car_types']) + [a.get('rty', rty)])}".replace("  ", " "))
+            pats = "".join(", " + n for n in a["car_names"])          # (phase 4d: a loop may carry no state at all - `compare_uint`)
             fu = "fuel"
             if mon or "rty" in a:
-                out.append(f"  | 0, {pats} => {self.term_m(a['exhaust'], 4, mon)}")
-                out.append(f"  | {fu}+1, {pats} => do")
+                out.append(f"  | 0{pats} => {self.term_m(a['exhaust'], 4, mon)}")
+                out.append(f"  | {fu}+1{pats} => do")
                 out += self.seq_m(a["body"], 4, mon)
             else:
-                out.append(f"  | 0, {pats} =>"); out += self.seq_p(a["exhaust"], 4)
-                out.append(f"  | {fu}+1, {pats} =>"); out += self.seq_p(a["body"], 4)
+                out.append(f"  | 0{pats} =>"); out += self.seq_p(a["exhaust"], 4)
+                out.append(f"  | {fu}+1{pats} =>"); out += self.seq_p(a["body"], 4)
             out.append("")
         out.append(f"/-- `{fn['name']}`  {fn['file']}:{fn['line0']}-{fn['line1']}  sha256/64(normalised source) = {fn['hash']}")
         out.append(f"    names: {' '.join(self.namemap)} -/")
@@ -2712,7 +2729,9 @@ def setIdx (l : List Nat) (i v : Nat) : R (List Nat) := if i < l.length then .ok
 def idx (l : List Nat) (i : Nat) : R Nat := match l[i]? with | some x => .ok x | none => .error .oob
 """
 
-ENUMS = {"SchemeType": {"lean": "Scheme", "ctors": {"BFV": ".bfv", "BGV": ".bgv", "CKKS": ".ckks"}}}
+ENUMS = {"SchemeType": {"lean": "Scheme", "ctors": {"BFV": ".bfv", "BGV": ".bgv", "CKKS": ".ckks"}},
+         # phase 4d: `std::cmp::Ordering` = Lean's `Ordering` (`a.cmp(&b)` on words = `cmpW a b` of the Word2 prelude)
+         "Ordering": {"lean": "Ordering", "ctors": {"Less": ".lt", "Equal": ".eq", "Greater": ".gt"}}}
 
 US = "src/util/uintsmallmod.rs"; UB = "src/util/basic.rs"; UN = "src/util/number_theory.rs"; UT = "src/util/ntt.rs"
 # functions to translate, callees first.  `monadic`: force the result into `R` (to match the hand model's type; wrapping a total
@@ -3062,6 +3081,26 @@ FILES += [
     ("EvalFns.lean", {"ns": "GenE", "imports": ["Heathcliff.Gen.WordFns"], "table": TABLE_EVAL, "opens": ["HC.GenW"]}),
     ("ScalingFns.lean", {"ns": "GenS", "imports": ["Heathcliff.Gen.WordFns"], "table": TABLE_SCALING, "opens": ["HC.GenW"], "prelude": SCALING_PRELUDE}),
     ("RnsFns.lean", {"ns": "GenR", "imports": ["Heathcliff.Gen.WordFns"], "table": TABLE_RNS, "opens": ["HC.GenW"], "prelude": PRELUDE_RNS}),
+]
+
+# Gen/Word2Fns.lean (phase 4d): more of src/util/basic.rs - the 192-bit shifts, multi-word comparison, the in-place add / sub and the
+# multi-word modular add / sub built from them.  Functions of Gen/WordFns.lean are referred to as `GenW.f`.
+PRELUDE_WORD2 = """/-- `a.cmp(&b)` on machine words -/
+def cmpW (a b : Nat) : Ordering := if a < b then .lt else if a = b then .eq else .gt
+"""
+TABLE_WORD2 = [
+    {"file": UB, "fn": "left_shift_u192", "model": "leftShiftU192 [a0, a1, a2] s"},
+    {"file": UB, "fn": "right_shift_u192", "model": "rightShiftU192 [a0, a1, a2] s"},
+    {"file": UB, "fn": "compare_uint", "model": "compareUint"},
+    {"file": UB, "fn": "is_greater_than_or_equal_uint", "model": "geUint"},
+    {"file": UB, "fn": "add_uint_inplace", "model": "addUint a b a.len()"},
+    {"file": UB, "fn": "sub_uint_inplace", "model": "subUint a b a.len()"},
+    {"file": UB, "fn": "add_uint_mod", "model": "addUintMod"},
+    {"file": UB, "fn": "sub_uint_mod", "model": "subUintMod"},
+    {"file": UB, "fn": "add_uint_mod_inplace", "model": "addUintMod"},
+]
+FILES += [
+    ("Word2Fns.lean", {"ns": "GenW2", "imports": ["Heathcliff.Gen.WordFns"], "table": TABLE_WORD2, "opens": ["HC.GenW"], "prelude": PRELUDE_WORD2}),
 ]
 
 if __name__ == "__main__":
